@@ -415,6 +415,7 @@ pub fn run(e: &'static Engine) {
          decodes to_bytes() to the same width/height/RGBA as the pixmap (un-premultiplied; +-2/255 only for partially transparent \
          backgrounds). Non-trivial: non-default shape or fit or margin or non-opaque background; distinct by case hash.",
     );
+    e.extend_rule("part wide_margins (module coordinates on 10^k / 2^k boundaries up to 1100); fits below the symbol size (size and PNG round trip only); 0..2 opaque layers under the top layer from a three-colour palette (the top layer's colour must show; every-pixel rule only when all layers are plain squares); renderer warm-up (perturbing every last-value-wins option, possibly before the last layer exists) and thread predecessors (multi-layer render, failing render).");
     e.assume("resvg/usvg/tiny-skia are part of the pipeline under test; png crate decoder is trusted");
     e.assume("non-square shapes are asserted only at >= 4 px per module, as the property states; fit_*(0) is outside the domain");
     crate::engine::run_regress(e, &|c, o| replay(e, c, o));
